@@ -128,7 +128,7 @@ def signature(pb, extra=""):
     """class signature of a case for distinct_nontrivial counting"""
     return "n%d p%d m%d %s %s" % (pb["n"], pb["p"], pb["m"], "".join(k[0] for k in pb["kinds"]), extra)
 
-def perturb(rng, pb, what):
+def perturb(rng, pb, what, strong=False):
     """a second problem of the same dimensions differing in the named blocks (keeps x0 strictly feasible where possible)"""
     q = dict(pb)
     n, p, m = pb["n"], pb["p"], pb["m"]
@@ -137,7 +137,7 @@ def perturb(rng, pb, what):
         P = [row[:] for row in pb["P"]]
         pat = set(pb.get("patP", [(i, j) for i in range(n) for j in range(n)]))
         for i in range(n):
-            if (i, i) in pat: P[i][i] += Fr(rng.randint(0, 2), rng.choice([1, 2]))
+            if (i, i) in pat: P[i][i] += Fr(rng.randint(0, 2), rng.choice([1, 2])) * (20 if strong else 1)
         off = [(i, j) for (i, j) in pat if i < j and (i, i) in pat and (j, j) in pat]
         if off:
             i, j = rng.choice(off); d = Fr(rng.randint(-1, 1), 2); P[i][j] += d; P[j][i] += d
@@ -149,7 +149,7 @@ def perturb(rng, pb, what):
         patA = set(pb.get("patA", [(i, j) for i in range(p) for j in range(n)]))
         for i in range(p):
             for j in range(p, n):
-                if (i, j) in patA and rng.random() < 0.5: A[i][j] += rnd_small(rng, -1, 1)
+                if (i, j) in patA and rng.random() < (0.9 if strong else 0.5): A[i][j] += rnd_small(rng, -1, 1) * (6 if strong else 1)
         q["A"] = A
         if "b" not in what: what = set(what) | {"b"}
     if "b" in what and p: q["b"] = [sum(q["A"][i][j] * x0[j] for j in range(n)) for i in range(p)]
@@ -157,7 +157,7 @@ def perturb(rng, pb, what):
         G = [row[:] for row in pb["G"]]
         patG = sorted(pb.get("patG", [(i, j) for i in range(m) for j in range(n)]))
         for (i, j) in patG:
-            if rng.random() < 0.4: G[i][j] += rnd_small(rng, -1, 1)
+            if rng.random() < (0.9 if strong else 0.4): G[i][j] += rnd_small(rng, -1, 1) * (6 if strong else 1)
         q["G"] = G
         has_inf = any(isinstance(v, str) for v in pb["h"])
         if "h" not in what and not (has_inf and rng.random() < 0.5): what = set(what) | {"h"}
